@@ -301,6 +301,11 @@ def compose(seed, adversarial=False):
                 continue
             Q_ = rng.choice([T.sym(0), T.evar(y), T.mv(4, ef=(x,)), nbot()])
             if attempt(['prim', 'prop1']) and attempt(['inst', len(b.pool) - 1, [[0, P_], [1, Q_]]]):
+                if rng.random() < 0.5:
+                    # resolve the pending substitution: the metavariable under it becomes one declared fresh for the
+                    # variable (the substitution must vanish, stance 7), a variable, or a closed term
+                    tgt = rng.choice([T.mv(4, ef=(x,)), T.mv(3, ef=(x, y)), T.mv(4, sf=(X,)), T.mv(4, ef=(x,), sf=(X,)), T.evar(y), T.evar(x), T.sym(0)])
+                    attempt(['inst', len(b.pool) - 1, [[3, tgt]]])
                 attempt(['gen', len(b.pool) - 1, rng.choice([x, y] + list(k.evars))])
         elif kind == 'inst' and live:
             i = rng.choice(live)
